@@ -74,12 +74,19 @@ def check(sess, op, rec=None, after_reopen=False):
             if got_pp != exp_pp:
                 raise Violation("C20:embedded-parent-chain-wrong", f"{where}: {epn}: {got_pp}", exp_pp)
             ref = schemas.PluginRef(name=name, version=ver)
-            pub_pp = [(r.name, tuple(r.version)) for r in toc.parent_path(name, ver)]
+            def ask(label, fn):
+                # the schema is in use in this container: its self-description interface has to answer
+                try:
+                    return fn()
+                except Exception as e:  # noqa: BLE001
+                    raise Violation(f"C20:reported-interface-raises:{label}", f"{where}: {epn}: {type(e).__name__}: {str(e)[:200]}",
+                                    "an answer for a schema that is in use")
+            pub_pp = [(r.name, tuple(r.version)) for r in ask("parent_path", lambda: toc.parent_path(name, ver))]
             if pub_pp != exp_pp:
                 raise Violation("C20:reported-parent-chain-wrong", f"{where}: {epn}: {pub_pp}", exp_pp)
-            if toc[ref] != js:
+            if ask("getitem", lambda: toc[ref]) != js:
                 raise Violation("C20:reported-jsonschema-differs-from-embedded", f"{where}: {epn}", "schemas[ref] == embedded")
-            if toc.get(ref) != js or ref not in toc:
+            if ask("get", lambda: toc.get(ref)) != js or ref not in toc:
                 raise Violation("C20:reported-jsonschema-differs-from-embedded:get", f"{where}: {epn}: schemas.get(ref) -> "
                                 f"{'None' if toc.get(ref) is None else 'something else'}, ref in schemas -> {ref in toc}", "the embedded schema, like schemas[ref]")
             unused = schemas.PluginRef(name="verif.nope", version=(9, 9, 9))
@@ -100,7 +107,7 @@ def check(sess, op, rec=None, after_reopen=False):
                        sorted((r.name, tuple(r.version)) for r in env.plugins["schema"]) for _, v in provs):
                 raise Violation("C20:embedded-provider-differs", f"{where}: {epn}: {[(v['name'], v['version']) for _, v in provs]}",
                                 (env.name, tuple(env.version)))
-            pub = toc.provider(ref)
+            pub = ask("provider", lambda: toc.provider(ref))
             if (pub.name, tuple(pub.version)) not in [(v["name"], tuple(v["version"])) for _, v in provs]:
                 raise Violation("C20:reported-provider-wrong", f"{where}: {epn}: {(pub.name, tuple(pub.version))}", provs[0][0])
             if (str(pub.name), tuple(pub.version)) not in [(k[0], tuple(k[1])) for k in toc.packages.keys()]:
